@@ -8,6 +8,6 @@ cmd=$1; name=$2; shift 2 || true
 d=/tmp/mut_$name
 case $cmd in
  new) rm -rf $d; mkdir -p $d; cp -r /repo/ImageD11 /repo/src /repo/setup.py /repo/README.md /repo/scripts $d/; rm -f $d/ImageD11/_cImageD11*.so; echo $d;;
- run) VERIF_REPO=$d /verif/check "$@";;
+ run) VERIF_NO_EVIDENCE=1 VERIF_REPO=$d /verif/check "$@";;
  rm) rm -rf $d;;
 esac
